@@ -484,7 +484,7 @@ def strip_rule(ctx, rep, fq: str, clause: str, by_design=('isotope_mods', 'stati
     for n in walk_own(f.node):
         if isinstance(n, ast.Call) and isinstance(n.func, ast.Attribute) and n.func.attr == 'split' and not n.args \
                 and not isinstance(n.func.value, ast.Constant):
-            split_line = n.lineno if split_line is None else min(split_line, n.lineno)
+            split_line = n.order if split_line is None else min(split_line, n.order)
     if split_line is None:
         raise AnalysisError(f'{fq}: the per-residue split() was not found')
     txt_before = []
@@ -492,9 +492,9 @@ def strip_rule(ctx, rep, fq: str, clause: str, by_design=('isotope_mods', 'stati
     guarded = set()
     for n in walk_own(f.node):
         if isinstance(n, ast.Call) and isinstance(n.func, ast.Attribute) and n.func.attr.startswith('pop_') and \
-                getattr(n, 'lineno', 0) <= split_line:
+                getattr(n, 'order', 0) <= split_line:
             popped.add(n.func.attr[len('pop_'):])
-        if isinstance(n, ast.If) and getattr(n, 'lineno', 0) <= split_line and \
+        if isinstance(n, ast.If) and getattr(n, 'order', 0) <= split_line and \
                 any(isinstance(s, ast.Raise) for s in n.body):
             t = norm_stmt(n.test)
             if 'contains_sequence_ambiguity' in t:
@@ -522,7 +522,7 @@ def strip_rule(ctx, rep, fq: str, clause: str, by_design=('isotope_mods', 'stati
     mass_f = program.func('peptacular.mass_calc:mass')
     sl = program.func(f'{PP}:ProFormaAnnotation.slice')
     before_split = [n for n in walk_own(f.node) if isinstance(n, ast.Call) and isinstance(n.func, ast.Attribute) and
-                    getattr(n, 'lineno', 0) <= split_line]
+                    getattr(n, 'order', 0) <= split_line]
     called = {n.func.attr for n in before_split}
     # (i) static rules: per-residue targets are right on every piece, but mass() applies the N-Term / C-Term targets
     #     to whatever annotation it is given -- i.e. to every one-residue piece
@@ -621,7 +621,7 @@ def shortcut_rule(ctx, rep, fq: str, clause: str):
             continue
         n += 1
         popped = {c.func.attr[len('pop_'):] for c in walk_own(f.node) if isinstance(c, ast.Call) and
-                  isinstance(c.func, ast.Attribute) and c.func.attr.startswith('pop_') and c.lineno < ret.lineno}
+                  isinstance(c.func, ast.Attribute) and c.func.attr.startswith('pop_') and c.order < ret.order}
         popped = {('charge' if p == 'charge' else p) for p in popped}
         remain = [fld for fld in ALL_MOD_FIELDS if fld not in popped]
         tests = list(dominating_tests(f.node, ret)) + [(t, False) for t in preceding_exits(f.node.body, ret)]
